@@ -1,0 +1,11 @@
+//go:build !verif
+// +build !verif
+
+package decimal
+
+// Verification hooks (see verif_hooks_on.go). Without the verif build tag they
+// are empty and inlined away.
+
+func verifHit(site int)   {}
+func verifPoolGet(z *dec) {}
+func verifPoolPut(z *dec) {}
